@@ -22,7 +22,7 @@ run_one() {
   det=""
   obl=""
   for p in $list; do
-    o=$(/verif/bin/sidecheck -property $p -dir $d/repo -verif $d/verif 2>&1)
+    o=$(${SIDECHECK:-/verif/bin/sidecheck} -property $p -dir $d/repo -verif $d/verif 2>&1)
     if ! echo "$o" | grep -q ' tier='; then
       echo "CHECKER ERROR on $name ($p): $(echo "$o" | head -2 | tr '\n' ' ' | cut -c1-160)" >&2
     fi
